@@ -78,7 +78,7 @@ func runSteps(t vkit.TB, steps []Cell, whole Case) (sums []string, classes []str
 			return sums, classes, false
 		}
 		c := steps[i]
-		vkit.Case(res.class, res.nontriv, fmt.Sprintf("%s|%s|%s|%s|%v|%v|%s|%s|%s|%s|%v|%s", c.Cmd, c.Identity, c.Claim, c.Target, c.AsResp, c.Pending, c.BodyTarget, c.When, c.MState, c.PrimeBy, c.FixedID, c.CodeState)+"|"+c.Again+"|"+c.Index)
+		vkit.Case(res.class, res.nontriv, fmt.Sprintf("%s|%s|%s|%s|%v|%v|%s|%s|%s|%s|%v|%s", c.Cmd, c.Identity, c.Claim, c.Target, c.AsResp, c.Pending, c.BodyTarget, c.When, c.MState, c.PrimeBy, c.FixedID, c.CodeState)+"|"+c.Again+"|"+c.Index+"|"+c.DomState+fmt.Sprint(c.Rehandshake))
 		if res.nontriv {
 			vkit.Sample(res.class, map[string]any{"cell": c, "outcome": trunc(res.summary, 300)})
 		}
@@ -186,6 +186,30 @@ func cellsOf(sp *spec, id string, draw int) []Cell {
 			c.Target = "reused-id"
 		}
 		out = append(out, c)
+	}
+	if !sp.Special && id != "none" && id != "challenged" {
+		// the connection proved to be another client first, used it, and handshook again as the requester
+		c := base
+		c.Rehandshake = true
+		out = append(out, c)
+		if sp.Type == packet.HTTPDomainCreate {
+			c.Target = "own" // the victim's name
+			out = append(out, c)
+		}
+	}
+	switch sp.Type {
+	case packet.HTTPDomainCreate, packet.HTTPDomainDelete, packet.HTTPDomainList, packet.HTTPDomainCheckSubdomain:
+		// the victim's domain mapping is paused; HTTPDomainCreate asks for exactly the victim's name
+		for _, ds := range []string{"", "inactive"} {
+			c := base
+			c.DomState = ds
+			if sp.Type == packet.HTTPDomainCreate {
+				c.Target = "own"
+			} else if ds == "" {
+				continue
+			}
+			out = append(out, c)
+		}
 	}
 	if !sp.Special {
 		// the same packet (type, CommandId, body) was sent a moment ago by a client that is entitled to an answer
@@ -374,6 +398,8 @@ func genCell(t *rapid.T) Cell {
 	if !sp.Resp {
 		c.Again = rapid.SampledFrom([]string{"", "", "", "", "delete", "revoked", "expired", "inactive"}).Draw(t, "again")
 	}
+	c.DomState = rapid.SampledFrom([]string{"", "", "inactive"}).Draw(t, "domState")
+	c.Rehandshake = rapid.IntRange(0, 4).Draw(t, "rehandshake") == 0
 	c.Index = rapid.SampledFrom([]string{"", "", "", "", "stale-id-reused"}).Draw(t, "index")
 	c.PrimeBy = rapid.SampledFrom([]string{"", "", "L", "T"}).Draw(t, "primeBy")
 	c.FixedID = rapid.Bool().Draw(t, "fixedID")
